@@ -31,6 +31,10 @@ type arrayDecoder struct {
 }
 
 func (valdec arrayDecoder) Decode(dec *Decoder, p interface{}, tag byte) {
+	if !dec.enter() {
+		return
+	}
+	defer dec.leave()
 	switch tag {
 	case TagNull, TagEmpty:
 		valdec.at.UnsafeSet(reflect2.PtrOf(p), valdec.empty)
